@@ -106,7 +106,7 @@ func c07Render(c c07Case, r *rand.Rand) string {
 		case "key":
 			return rule(v+":foo", "@rx .", "")
 		case "rxkey":
-			return rule(v+":/^fo/", "@rx .", "")
+			return rule(v+":/^fo/|"+v+":'/^ba/'", "@rx .", "") // plain and quoted regex key (the quoted one ends the list)
 		case "neg":
 			return rule("ARGS|!"+v, "@rx .", "")
 		case "negkey":
@@ -253,6 +253,9 @@ var c07Traffic = []traffic{
 	{"badxml", "POST", "/p", "text/xml", `<a><b></a>`, nil, "c"},
 	{"multipart", "POST", "/p", "multipart/form-data; boundary=b", "--b\r\nContent-Disposition: form-data; name=\"foo\"\r\n\r\nbar\r\n--b\r\nContent-Disposition: form-data; name=\"f\"; filename=\"x.txt\"\r\n\r\ndata\r\n--b--\r\n", nil, "c"},
 	{"badmultipart", "POST", "/p", "multipart/form-data; boundary=b", "--b\r\nContent-Disposition: form-data; name=\"foo", nil, "c"},
+	{"gettrunc", "GET", "/p?foo=%4", "", "", map[string]string{"Cookie": "foo=%4; b=%", "X-T": "%4"}, "c"},
+	{"gettrunc2", "GET", "/p?foo%a", "", "", nil, "c"},
+	{"urlencodedtrunc", "POST", "/p?x=%", "application/x-www-form-urlencoded", "foo%a=v&bar=%4", nil, "c"},
 	{"bodyfirst", "POST", "/p?foo=1", "application/x-www-form-urlencoded", "foo=bar", nil, "b"},
 	{"responsefirst", "GET", "/\xff%00?foo", "", "", map[string]string{"Foo": "\xff\x00", "Content-Length": "-1"}, "r"},
 }
@@ -334,7 +337,7 @@ func panicSite(p string) string {
 
 // C07: the library never panics, whatever configuration text or traffic it is given.
 func C07(run *vf.Run) {
-	run.Rule = "Grammar_MC.tla over a Vocab module generated at check time from the real registries in the source tree (every directive, action, operator, transformation, variable, ctl option): TLC enumerates every vocabulary item in every syntactic role (variables: plain / count / key / regex key / negation / negated key / macro / macro key / setvar key / ctl target / update target; operators: good / empty / macro / degenerate / negated argument; actions: bare / value / quoted / empty / macro / +N / -N / !key / duplicated / upper-case; transformations: single / after none / twice / multiMatch; ctl options and directives with good / boundary / negative / garbage / empty values); each case is spelled as SecLang, compiled (NewWAF under recover), and every accepted configuration is driven with 10 traffic shapes (GET with malformed escapes and cookies, urlencoded, JSON, malformed JSON, XML, malformed XML, multipart with upload, truncated multipart, body-before-headers and response-before-request call orders) under recover() and a watchdog; plus byte-level mutations (delete / duplicate / flip / insert delimiter) of every spelled case. Non-trivial = an accepted configuration that was driven with traffic"
+	run.Rule = "Grammar_MC.tla over a Vocab module generated at check time from the real registries in the source tree (every directive, action, operator, transformation, variable, ctl option): TLC enumerates every vocabulary item in every syntactic role (variables: plain / count / key / regex key / negation / negated key / macro / macro key / setvar key / ctl target / update target; operators: good / empty / macro / degenerate / negated argument; actions: bare / value / quoted / empty / macro / +N / -N / !key / duplicated / upper-case; transformations: single / after none / twice / multiMatch; ctl options and directives with good / boundary / negative / garbage / empty values); each case is spelled as SecLang, compiled (NewWAF under recover), and every accepted configuration is driven with 13 traffic shapes (GET with malformed escapes and cookies, escapes cut short at the very end of a name or value, urlencoded, JSON, malformed JSON, XML, malformed XML, multipart with upload, truncated multipart, body-before-headers and response-before-request call orders) under recover() and a watchdog; plus byte-level mutations (delete / duplicate / flip / insert delimiter) of every spelled case. Non-trivial = an accepted configuration that was driven with traffic"
 	run.Exhaustive = true
 	run.Assume("byte-level mutation is done on the Go side (seeded); the specification contributes the corpus that spells every vocabulary item in every role and the expectation 'returns normally'")
 	root := repoRoot()
